@@ -8,9 +8,10 @@
 #include <stddef.h>
 #include "public/module/mem/mem.h"
 
-#define NB 8
+#define NB 48
+#define NBR 8          /* blocks of the random phases */
 static struct { unsigned char *ptr; void *base; int child; size_t size; int live; int created; } B[NB + 1];
-static int evlog[64], nev;
+static int evlog[512], nev;
 static int dtor_bad;
 
 static int pattern_ok(int b) {
@@ -19,16 +20,16 @@ static int pattern_ok(int b) {
 }
 static void blk_dtor(void *p) {
     for (int b = 1; b <= NB; b++) if (B[b].live && B[b].ptr == p) {
-        evlog[nev++] = 10 + b;
+        evlog[nev++] = 1000 + b;
         /* still-valid block: pattern readable and size still answered */
         if (!pattern_ok(b) || m_mem_size(p) != B[b].size) dtor_bad++;
         if (B[b].child) m_mem_unref(B[B[b].child].ptr);
         return;
     }
-    evlog[nev++] = 99; /* destructor on an unknown pointer */
+    evlog[nev++] = 9999; /* destructor on an unknown pointer */
 }
 static void on_free(void *p) {
-    for (int b = 1; b <= NB; b++) if (B[b].live && B[b].base == p) { evlog[nev++] = 20 + b; B[b].live = 0; return; }
+    for (int b = 1; b <= NB; b++) if (B[b].live && B[b].base == p) { evlog[nev++] = 2000 + b; B[b].live = 0; return; }
 }
 
 static void project(char *buf, size_t n) {
@@ -57,6 +58,11 @@ static void apply(gw_edge *e, char *obs, size_t n) {
         ret = p ? b : 0;
     } else if (!strcmp(a, "Ref")) {
         ret = m_mem_ref(B[b].ptr) == B[b].ptr ? b : -1;
+    } else if (!strcmp(a, "RefN")) {                 /* n references taken at once (trace mode) */
+        ret = b;
+        for (long i = 0; i < e->args[1]; i++) if (m_mem_ref(B[b].ptr) != B[b].ptr) ret = -1;
+    } else if (!strcmp(a, "UnrefN")) {               /* n references dropped, not the last one */
+        for (long i = 0; i < e->args[1]; i++) if (m_mem_unref(B[b].ptr) != NULL) ret = -1;
     } else if (!strcmp(a, "Unref")) {
         ret = m_mem_unref(B[b].ptr) == NULL ? 0 : -1;
     } else if (!strcmp(a, "Unrefp")) {
@@ -127,7 +133,7 @@ static long tr_events;
 
 static void tr_do(const char *act, int b, long s, int d, int c, const char *k) {
     gw_edge e; memset(&e, 0, sizeof e);
-    char obs[512];
+    char obs[8192];
     strcpy(e.act, act);
     e.args[0] = b; e.args[1] = s; e.args[2] = d; e.args[3] = c;
     if (k) strcpy(e.sargs[0], k);
@@ -161,15 +167,30 @@ static int trace_main(const char *out, unsigned seed, long nrandom, int maxsize)
         else tr_do(s % 3 ? "Unref" : "Unrefp", 1, 0, 0, 0, NULL);
     }
     fprintf(TF, "{\"a\":\"Reset\"}\n");
+    for (int b = 0; b <= NB; b++) memset(&B[b], 0, sizeof B[b]);
+    /* phase 1b: a chain of 40 nested blocks (each one's destructor drops the only reference on the next): the last unref runs 40
+       destructors inside one another, innermost block released first */
+    for (int i = 1; i <= 40; i++) tr_do("New", i, 8 + i, 1, i - 1, NULL);
+    tr_do("SizeOf", 1, 0, 0, 0, NULL);
+    tr_do("Unref", 40, 0, 0, 0, NULL);
+    /* phase 1c: more references on one block than 16 bits can count */
+    tr_do("New", 1, 24, 1, 0, NULL);
+    tr_do("RefN", 1, 70000, 0, 0, NULL);
+    tr_do("Unref", 1, 0, 0, 0, NULL);
+    tr_do("SizeOf", 1, 0, 0, 0, NULL);
+    tr_do("UnrefN", 1, 69999, 0, 0, NULL);
+    tr_do("SizeOf", 1, 0, 0, 0, NULL);
+    tr_do("Unref", 1, 0, 0, 0, NULL);
+    fprintf(TF, "{\"a\":\"Reset\"}\n");
     for (int b = 0; b <= NB; b++) { memset(&B[b], 0, sizeof B[b]); g_held[b] = g_par[b] = g_dt[b] = 0; }
     /* phase 2: random population of 8 blocks */
     for (long i = 0; i < nrandom; i++) {
         g_sync();
-        int b = 1 + rand() % NB, r = rand() % 100;
+        int b = 1 + rand() % NBR, r = rand() % 100;
         if (!B[b].live) {
             if (r < 60) {
                 int c = 0, d = rand() & 1;
-                int cand = 1 + rand() % NB;
+                int cand = 1 + rand() % NBR;
                 if (d && cand != b && B[cand].live && g_held[cand] > 0 && g_par[cand] == 0 && (rand() & 1)) c = cand;
                 long sz = rand() % 5 == 0 ? rand() % 4096 : rand() % 64;
                 tr_do("New", b, sz, d, c, NULL);
